@@ -210,6 +210,7 @@ harnesses! {
         #[cfg_attr(kani, kani::stub(std::process::id, crate::c10_width::cut_process_id))]
         #[cfg_attr(kani, kani::stub(std::backtrace::Backtrace::capture, crate::util::stub_backtrace_capture))]
         #[cfg_attr(kani, kani::stub(<anyhow::Error as std::ops::Drop>::drop, crate::util::stub_anyhow_drop))]
+        #[cfg_attr(kani, kani::stub(<anyhow::Error as std::convert::From<std::io::Error>>::from, crate::util::stub_anyhow_from_cut))]
     }
     // left/right x (min only | max only | both); fill ' '
     #[kani::unwind(8)]
